@@ -224,7 +224,7 @@ def flush_model(rep, batch):
 
 
 def run(ctx, rep, model=True):
-    n = 3 if ctx.quick else 24
+    n = 6 if ctx.quick else 30
     for i in range(n):
         spec = plotgen.random_spec(ctx.rng, ndims=3, nlev=[2, 3, 1, 2][i % 4], nf=[2, 3][i % 2],
                                    data=["smallint", "affine", "levelconst"][i % 3], B=2,
